@@ -17,7 +17,22 @@ class protect(Command):
     pass
 
 class global_(Command):
+    """ \\global prefix: makes a following \\def or \\let global """
     macroName = 'global'
+
+    def invoke(self, tex):
+        for tok in tex.itertokens():
+            name = getattr(tok, 'macroName', None)
+            if name in ('def', 'edef'):
+                tex.pushToken(EscapeSequence(name == 'def' and 'gdef' or 'xdef'))
+                return []
+            if name == 'let':
+                a = self.ownerDocument.createElement('let').parse(tex)
+                self.ownerDocument.context.let(a['name'], a['value'],
+                                               local=False)
+                return []
+            tex.pushToken(tok)
+            break
 
 class par(Command):
     """ Paragraph """
